@@ -703,3 +703,86 @@ def stat_refused(S):
 
 
 c.raises_("StatusCodeError", stat_refused, "refusal-passed-on-or-550-only-when-no-entry-of-that-name-is-listed")
+
+
+# ---- Client.stat with a parent listing of ANY length (LIST fallback)
+from pyvc.objseq import ObjSeq  # noqa: E402
+
+ENTRY_NAME = z3.Array("listing_entry_name", z3.IntSort(), z3.StringSort())
+
+
+def setup_stat_any(u):
+    it = u.it
+    names = [fresh("str", f"n{i}") for i in range(1 + u.choose(2, "path-depth"))]
+    for n in names:
+        u.assume(models_path.clean_part(n.t))
+        u.assume(n.t != z3.StringVal(".."))
+    path = PathVal("posix", "/", models_path.seq_of(names), abs_known=True)
+    listed = []
+
+    def make(it_, idx):
+        info = Obj(u.cls(CLIENT, "Client").__class__("info", [], {}), tag="info[i]")
+        info.entry_index = idx
+        return (PathVal("posix", "/", z3.Concat(models_path.seq_of(names[:-1]), z3.Unit(ENTRY_NAME[idx])), abs_known=True), info)
+
+    table = ObjSeq("listing", make)
+
+    def command(i, a, k):
+        def run():
+            i.suspend("command")
+            # this unit is about the fallback: MLST is refused as not implemented
+            code = i.call(u.cls(CLIENT, "Code"), ["502"], {})
+            raise PyRaise(i.call(u.cls("aioftp.errors", "StatusCodeError"), [i.call(u.cls(CLIENT, "Code"), ["2xx"], {}), code, ["refused"]], {}))
+
+        return Coro(run, "command")
+
+    def list_(i, a, k):
+        def run():
+            i.suspend("list")
+            listed.append((a[1], k))
+            return table
+
+        return Coro(run, "list")
+
+    cl = _client_with(u, {"command": command, "list": list_})
+    return it.getattr_(cl, "stat"), [path], {}, {"path": path, "names": names, "listed": listed, "table": table}
+
+
+c = contract(CLIENT, "Client.stat", props=["C07"], name="Client.stat#any-listing")
+c.setup = setup_stat_any
+c.raises_("CancelledError")
+c.assumptions.append("the parent listing is a list of any length (entry names symbolic); MLST is refused with 502 (the MLST branch and the other refusals are the bounded unit's)")
+
+
+def stat_any_inv(S):
+    k = S.vars["_i"]
+    k = k.t if isinstance(k, SV) else z3.IntVal(k)
+    last = S.vars["names"][-1].t
+    i = z3.Int("i!stat")
+    return z3.ForAll([i], z3.Implies(z3.And(i >= 0, i < k), ENTRY_NAME[i] != last))
+
+
+c.loops = {("Client.stat", 0): LoopSpec(invariants=[("no-entry-of-that-name-so-far", stat_any_inv)])}
+
+
+def stat_any_post(S):
+    table = S.vars["table"]
+    last = S.vars["names"][-1].t
+    j = getattr(S.result, "entry_index", None)
+    if j is None:
+        return False
+    i = z3.Int("i!statpost")
+    return z3.And(j >= 0, j < table.n, ENTRY_NAME[j] == last, z3.ForAll([i], z3.Implies(z3.And(i >= 0, i < j), ENTRY_NAME[i] != last)))
+
+
+c.ensures(stat_any_post, "info-of-the-first-listed-entry-with-that-name")
+
+
+def stat_any_missing(S):
+    table = S.vars["table"]
+    last = S.vars["names"][-1].t
+    i = z3.Int("i!statmiss")
+    return z3.ForAll([i], z3.Implies(z3.And(i >= 0, i < table.n), ENTRY_NAME[i] != last))
+
+
+c.raises_("StatusCodeError", stat_any_missing, "550-only-when-no-listed-entry-has-that-name")
